@@ -56,6 +56,10 @@ def cases(rng, tier, feats, drv_ok):
             l = line(m, nf if nf2 is None else nf2)
             if l != base:
                 out.append({'line': l, 'kind': kind, 'aux': [base], 'bound': bound})
+                # HISTORY: the base input is hashed, then the SAME object receives every field of the mutant and is hashed again —
+                # the seed must be the one a fresh object with the mutant's value gets (no cache / memo may survive an edit)
+                if nf2 is None and rng.chance(1, 2):
+                    out.append({'line': 'pihash_seq ' + base.split(' ', 1)[1].rsplit(' ', 1)[0] + ' ' + l.split(' ', 1)[1], 'kind': 'seq:' + kind, 'aux': [l], 'bound': 'equal'})
         mut('log_n_steps', lambda m: m.__setitem__('lns', m['lns'] + 1))
         mut('range_check_min', lambda m: m.__setitem__('rmin', m['rmin'] + 1))
         mut('range_check_max', lambda m: m.__setitem__('rmax', m['rmax'] + 1))
